@@ -457,6 +457,16 @@ def specSource {ι ε : Type} : Source (Option (List ι × Option ε)) ι ε whe
       | (k', .ok ()), none => (none, k', .ok true)
   fuel := fun _ => 2
 
+/-- the part of a script a run must leave untouched ("nothing is taken from the source after the
+fault"): everything after the step in which the callback failed / which failed itself -/
+def specRest {κ εk ε : Type} (c : List Adapter) (f : Sink κ Item εk) : κ → List (Ev Item ε) → List (Ev Item ε)
+  | _, [] => []
+  | k, .ok is :: rest =>
+    match feed f k (chainItems c is) with
+    | (k', .ok ()) => specRest c f k' rest
+    | (_, .error _) => rest
+  | _, .err _ _ :: rest => rest
+
 /-- `Some(Ok(t))` = a step delivering `[t]`; `Some(Err(e))` = a step failing at once -/
 def Ev.ofResult {ι ε : Type} : Except ε ι → Ev ι ε
   | .ok t => .ok [t]
@@ -579,6 +589,46 @@ def collectVec {σ ε : Type} (S : Source σ Item ε) (s : σ) :
     (s', log, v, r.map fun
       | .ok () => .ok ()
       | .error e => .error (.source e))
+
+/-- `impl CollectibleGraph for HashSet<[T;3], S>` / `BTreeSet<[T;3]>` (and the dataset twins):
+`triples.for_each_triple(|t| { s.insert(..); }).map_err(SourceError)?; Ok(s)` -/
+def collectSet {σ ε : Type} (S : Source σ Item ε) (s : σ) :
+    σ × List Item × List Item × Option (StreamResult Unit ε StoreError) :=
+  match forEachTriple S (tapPush (fun (v : List Item) t => if v.contains t then v else v ++ [t])) s ([], []) with
+  | (s', (log, v), r) =>
+    (s', log, v, r.map fun
+      | .ok () => .ok ()
+      | .error e => .error (.source e))
+
+/-! ### Streaming (non-pretty) Turtle / TriG / RDF-XML serializers (turtle/src/serializer/{turtle,trig}.rs,
+xml/src/serializer.rs through rio/src/serializer.rs)
+
+    let mut tf = Formatter::new(&mut self.write)            // RDF/XML: `.map_err(SinkError)?`
+    rio_format_triples(&mut tf, source)?;                   // try_for_each_triple(|t| tf.format(..))
+    tf.finish().map_err(SinkError)?;  Ok(self)
+
+What the third-party formatter writes is not modelled: *which* `format` call hits the writer's
+limit (or whether the constructor / `finish` does) is observed with the formatter alone and given
+as a plan. -/
+
+structure FmtPlan where
+  newFails : Bool
+  failOnCall : Option Nat
+  finishFails : Bool
+  deriving Repr
+
+/-- `|t| tf.format(..)`: the state counts the calls -/
+def formatSink {εk : Type} (plan : FmtPlan) (payload : εk) : Sink Nat Item εk := fun n _ =>
+  if plan.failOnCall = some n then (n + 1, .error payload) else (n + 1, .ok ())
+
+def serializeRio {σ ε εk : Type} (plan : FmtPlan) (payload : εk) (S : Source σ Item ε) (s : σ) :
+    σ × List Item × Option (StreamResult Unit ε εk) :=
+  if plan.newFails then (s, [], some (.error (.sink payload)))
+  else
+    match tryForEachTriple S (tap (formatSink plan payload)) s ([], 0) with
+    | (s', (log, _), some (.ok ())) =>
+      if plan.finishFails then (s', log, some (.error (.sink payload))) else (s', log, some (.ok ()))
+    | (s', (log, _), r) => (s', log, r)
 
 /-! ### Serializer over a writer that fails after `limit` bytes -/
 
